@@ -100,6 +100,16 @@ def _probe_install(kinds, rec):
                         bytes(quic_packet.packet_num).hex(), bytes(r).hex(), float(quic_packet.ts)])
             return r
         Q.QuicSession.get_full_packet_number = pn
+        o_e = Q.QuicSession.check_key_epoch
+
+        def ce(self, key_phase_bit, isserver):
+            before = (self.epoch_client, self.epoch_server)
+            r = o_e(self, key_phase_bit, isserver)
+            if (self.epoch_client, self.epoch_server) != before:
+                # the key material the session holds after it has moved to another key generation
+                rec.append(["q_epoch", int(self.client_port), int(self.epoch_client), int(self.epoch_server), hexd(self.keys)])
+            return r
+        Q.QuicSession.check_key_epoch = ce
         o_f = Q.parse_frames
 
         def pf(payload, src_packet):
